@@ -122,4 +122,6 @@ sites! {
     AVG_BETWEEN_LOAD_AND_CAS,
     // non_blocking_atomic_stack
     STACK_BEFORE_SWAP, STACK_LOCKED, STACK_BEFORE_HEAD_UPDATE, STACK_BEFORE_RELEASE, STACK_SPIN,
+    // uni crossbeam channel: every send attempt (a caller that retries in a loop of its own is seen making steps)
+    UNI_XB_SEND_ENTER,
 }
